@@ -499,7 +499,10 @@ func runC17(p *Prog, r *Report) {
 			}
 			// a nil-error return: either "no data at all" or after Write+Close
 			noData := guardedBy(ret, func(a Atom) bool {
-				m, isNil := nilTestOn(a, func(v ssa.Value) bool { return loadedField(canon(v)) == dataF })
+				// no payload at all: the Data oneof is unset, or there is no MessageContents
+				m, isNil := nilTestOn(a, func(v ssa.Value) bool {
+					return loadedField(canon(v)) == dataF || canon(v) == ssa.Value(wmsg.Params[0])
+				})
 				return m && isNil
 			})
 			if noData {
